@@ -128,10 +128,12 @@ def judge_cross(v, scen, impl, model, name, what, d1_text):
 
 
 def mc_property(v, tier, seed, name, prof, fields=mc_suite.ALL_FIELDS, noids=False, refenum=False, cross=None,
-                n_quick=400, n_thorough=6000, nontrivial=None, d1_text="", corpus=("mc",), staged=False):
+                n_quick=400, n_thorough=6000, nontrivial=None, d1_text="", corpus=("mc",), staged=False, extra_gen=None):
     """the standard MC-level check of one property"""
     def extra(rng, tier):
         out = []
+        if extra_gen:
+            out += extra_gen(rng, tier)
         if cross:
             n = 120 if tier == "quick" else 2000
             for i in range(n):
@@ -145,8 +147,20 @@ def mc_property(v, tier, seed, name, prof, fields=mc_suite.ALL_FIELDS, noids=Fal
     n = len(bad)
 
     def judge_impl(lines, impl_out):
-        # monitor used when the correspondence is broken: does the implementation's own exploration
-        # deviate from the reference semantics on this scenario?
+        # monitors used when the correspondence is broken.
+        # (a) caching must not change the set of evaluated states: re-run the scenario with the cache disabled in every
+        #     run and compare the implementation with itself
+        if any(re.search(r"^run(from)? \S+ (full|partial) ", l) for l in lines) and not any("dgt:" in l for l in lines if l.startswith("run")):
+            nocache = [re.sub(r"^(run(?:from)? \S+) (?:full|partial) ", r"\1 disabled ", l) for l in lines]
+            i2, _ = run_pair("mc", [mc_suite.block("c", [l for l in lines if l != "refenum"]), mc_suite.block("d", [l for l in nocache if l != "refenum"])], jobs=1)
+            rc, rd = mc_suite.split_runs(i2.get("c", [])), mc_suite.split_runs(i2.get("d", []))
+            for k, (x, y) in enumerate(zip(rc, rd)):
+                if "result=ok" in x["hdr"] and "result=ok" in y["hdr"]:
+                    sx, sy = keyset(x), keyset(y)
+                    if sx != sy:
+                        return (f"run {k}: with the visited-state cache the implementation evaluates {len(sx)} distinct states, without it {len(sy)}; "
+                                f"e.g. never evaluated with the cache: {sorted(sy - sx)[:1]}")
+        # (b) does the implementation's own exploration deviate from the reference semantics on this scenario?
         ls = lines if "refenum" in lines else ["refenum"] + lines
         i, m = run_pair("mc", [mc_suite.block("j", ls)], jobs=1)
         ri, rs = mc_suite.split_runs(i.get("j", [])), mc_suite.ref_sets(m.get("j", []))
@@ -170,6 +184,24 @@ def mc_property(v, tier, seed, name, prof, fields=mc_suite.ALL_FIELDS, noids=Fal
     if cross:
         n += judge_cross(v, scen, impl, model, name, "strategies / cache modes", d1_text)
     return n
+
+
+def gen_crash_merge(rng, tier):
+    """C11 equality probe: stage 1 collects every state; stage 2 crashes a node in the callback and explores from all of them
+    with a shared Full/Partial cache: start states that differ only in what the crashed node's processes had already done must
+    stay distinct states"""
+    out = []
+    n = 150 if tier == "quick" else 2500
+    for i in range(n):
+        prof = mc_suite.profile(nodes=(2, 3), procs=(2, 4), record=0.8, staged=1.0, p_crash=0.0, p_fault=0.1, p_mode=0.0, p_link=0.0,
+                                collect_always=True, two_runs=0.0, caches=("full", "partial"), locals=(1, 2))
+        lines = mc_suite.gen_scenario(rng, prof)
+        nodes = [l.split()[1] for l in lines if l.startswith("node ")]
+        k = max(j for j, l in enumerate(lines) if l.startswith("runfrom"))
+        lines = [re.sub(r"collect=\S+", "collect=always", l) if l.startswith(("run", "runfrom")) else l for l in lines]
+        lines.insert(k, f"cb crash {rng.choice(nodes)}")
+        out.append((f"cm{i}", lines))
+    return out
 
 
 def replay(v, path):
